@@ -825,6 +825,9 @@ func tRecurrent(gg *ggraph, rt *rapid.T) bool {
 	case 1:
 		outs[0].name = "" // skipped leading output
 		gg.feat("skipped-output-name")
+	case 2:
+		outs[len(outs)-1].name = "" // trailing output listed, but left unnamed
+		gg.feat("skipped-output-name")
 	}
 	gg.emit(kind, ins, outs, attrs...)
 	gg.mixing, gg.weighted = true, true
